@@ -23,6 +23,8 @@ MkRule(tg, src, kind, id, omit, mask, x, pf) ==
   IN [tg |-> tg, src |-> src, cl |-> (IF pf THEN <<"vcmd false", ";">> ELSE <<>>) \o <<line>>,
       kind |-> kind, id |-> id, omit |-> omit, mask |-> mask, x |-> x, pf |-> pf]
 Rl(tg, src, kind, id) == MkRule(tg, src, kind, id, 0, <<>>, FALSE, FALSE)
+\* the first line of the command is killed by a signal (no exit code) instead of exiting non-zero
+Killed(r) == [r EXCEPT !.cl = <<"vcmd killed">> \o Tail(@)]
 
 Init ==
   /\ InitCore /\ ord = Ord0 /\ rules = Menu[1]
